@@ -54,21 +54,15 @@ Inductive const (Q : Type) : Type :=
 | CBool (b : bool)
 | CString (s : string)
 | CFunRef (f : fref)
-| CFmt (spec : option string).
+| CFmt (spec : option string)
+| CUnit (name : string).          (* Constant::Unit of a base unit *)
 Arguments CScalar {Q} q.
 Arguments CBool {Q} b.
 Arguments CString {Q} s.
 Arguments CFunRef {Q} f.
 Arguments CFmt {Q} spec.
+Arguments CUnit {Q} name.
 
-Definition const_to_value {Q} (c : const Q) : value Q :=
-  match c with
-  | CScalar q => VQ q
-  | CBool b => VBool b
-  | CString s => VStr s
-  | CFunRef f => VFun f
-  | CFmt s => VFmt s
-  end.
 
 Inductive unop := UNeg | UNot | UFact (order : nat).
 Inductive binop :=
@@ -78,6 +72,7 @@ Inductive binop :=
 (* The primitive operations: everything about quantities, formatting and the
    foreign functions is a parameter of the development. *)
 Record ops (Q : Type) : Type := {
+  q_unit : string -> Q;                        (* Quantity::from_unit of a base unit *)
   q_neg : Q -> Q;
   q_fact : nat -> Q -> res Q;
   q_arith : binop -> Q -> Q -> res Q;          (* Add Sub Mul Div Power ConvertTo *)
@@ -89,6 +84,7 @@ Record ops (Q : Type) : Type := {
   proc : string -> list (value Q) -> res (list string);  (* printed lines *)
   procs : list string                          (* initial ffi_callables keys (Vm::new) *)
 }.
+Arguments q_unit {Q} o.
 Arguments q_neg {Q} o.
 Arguments q_fact {Q} o.
 Arguments q_arith {Q} o.
@@ -103,6 +99,17 @@ Arguments procs {Q} o.
 Section Prim.
 Context {Q : Type}.
 Variable O : ops Q.
+
+(* Constant::to_value *)
+Definition const_to_value (c : const Q) : value Q :=
+  match c with
+  | CScalar q => VQ q
+  | CBool b => VBool b
+  | CString s => VStr s
+  | CFunRef f => VFun f
+  | CFmt s => VFmt s
+  | CUnit n => VQ (q_unit O n)
+  end.
 
 Definition fref_eqb (a b : fref) : bool :=
   match a, b with
